@@ -3,8 +3,8 @@ import itertools, random
 from .. import core, hist, world as W
 from .c01 import fix_disagreements
 
-MODULES = ['DsdVerif.Props.C11', 'DsdVerif.Props.PyIdent2']
-GEN_FILES = ['PyIdentifiers2']
+MODULES = ['DsdVerif.Props.C11', 'DsdVerif.Props.PyIdent2', 'DsdVerif.Props.PySetObjects']
+GEN_FILES = ['PyIdentifiers2', 'PySetObjects']
 THEOREM_NAMES = ['sortBy_perm', 'sortBy_sorted', 'sortBy_perm_invariant', 'macro_perm_invariant', 'macro_canon_spec', 'macro_injective', 'reaction_perm_invariant', 'reaction_lists_sorted', 'reaction_canon_iff']
 THEOREMS = ['Dsd.C11.' + t for t in THEOREM_NAMES] + ['Dsd.C11.macroRequestFull_eq', 'Dsd.C11.reactionRequestFull_eq'] + \
     ['Dsd.PyIdent2.' + t for t in (
@@ -12,7 +12,12 @@ THEOREMS = ['Dsd.C11.' + t for t in THEOREM_NAMES] + ['Dsd.C11.macroRequestFull_
         'py_MacrostateS_identifiers_eq', 'macroRequestFull_eq_py', 'py_macro_request', 'py_macro_perm_invariant', 'py_macro_canon_spec',
         'py_MacrostateS_identifiers_examples', 'py_ReactionS_identifiers_eq', 'reactionRequestFull_eq_py', 'py_reaction_request',
         'py_reaction_perm_invariant', 'py_reaction_ok', 'py_reaction_canon_iff', 'py_ReactionS_identifiers_examples', 'sortedByM_eq',
-        'sortedMembers_eq', 'sortedForms_eq', 'sortedByM_empty_macro', 'ckeyLt_eq', 'sortedBy_eq')]
+        'sortedMembers_eq', 'sortedForms_eq', 'sortedByM_empty_macro', 'ckeyLt_eq', 'sortedBy_eq')] + \
+    ['Dsd.PySetObj.' + t for t in (
+        # MacrostateS.__init__ / ReactionS.__init__ and their views as written in the source (translator/pyident3.py -> Gen/PySetObjects.lean);
+        # a constructor that stored the CALLER's list without a copy is refused by the translator (the defect repaired in 26b6d05)
+        'py_MacrostateS_init_eq', 'py_MacrostateS_views', 'py_macro_members', 'py_macro_stop_iff', 'py_macro_object', 'py_ReactionS_init_eq',
+        'py_ReactionS_views', 'py_reaction_lists_sorted', 'py_reaction_object', 'py_setobjects_examples')]
 ASSUMPTIONS = [
     'MacrostateS.identifiers / ReactionS.identifiers are hand-modelled (Model/Objects.lean: macroRequest, reactionRequest; sorted() is a '
     'stable insertion sort by canonical form); members are (name, canonical form) of live singleton complexes or macrostates',
@@ -257,6 +262,8 @@ def run(res, proof):
     # MacrostateS.identifiers / ReactionS.identifiers as translated from the working tree (Gen/PyIdentifiers2.lean) against the real classmethods
     from .pyident2_stream import source_derived_pyident2
     source_derived_pyident2(res, proof)
+    from .pysetobj_stream import source_derived_pysetobj
+    source_derived_pysetobj(res, proof)
     res.sample(lines[:12])
 
 
